@@ -24,11 +24,12 @@ Definition op_wf (o : op) : Prop :=
   | OpEvent _ => True
   end.
 
-(* before the call: the per-call log is cleared; an error response means the terminal does not
-   have the image (any more) *)
-Definition pre_store (o : op) (s : tstore) : tstore :=
+(* before the call: the per-call log is cleared.  An error response is either genuine -- the
+   terminal does not have the image (any more): lost = true -- or spurious (lost = false: the terminal
+   still holds image and placements).  The handler cannot tell the two apart. *)
+Definition pre_store (lost : bool) (o : op) (s : tstore) : tstore :=
   match o with
-  | OpEvent (EvKitty id _ true) => store_forget id (clear_log s)
+  | OpEvent (EvKitty id _ true) => if lost then store_forget id (clear_log s) else clear_log s
   | _ => clear_log s
   end.
 
@@ -36,16 +37,17 @@ Definition err_of (o : op) : option N :=
   match o with OpEvent (EvKitty id _ true) => Some id | _ => None end.
 
 (* the terminal reads the bytes the call wrote *)
-Definition term_step (st : kitty) (s : tstore) (o : op) : tstore :=
+Definition term_step (lost : bool) (st : kitty) (s : tstore) (o : op) : tstore :=
   match parse_stream (fst (fst (step st o))) with
-  | Some its => store_run (pre_store o s) its
-  | None => add_err 99 (pre_store o s)
+  | Some its => store_run (pre_store lost o s) its
+  | None => add_err 99 (pre_store lost o s)
   end.
 
-Fixpoint lockstep (st : kitty) (s : tstore) (ops : list op) : list tstore :=
+(* a history: every call comes with the flag "if this is an error response, it is genuine" *)
+Fixpoint lockstep (st : kitty) (s : tstore) (ops : list (op * bool)) : list tstore :=
   match ops with
   | [] => []
-  | o :: r => let s' := term_step st s o in s' :: lockstep (snd (step st o)) s' r
+  | (o, lost) :: r => let s' := term_step lost st s o in s' :: lockstep (snd (step st o)) s' r
   end.
 
 Definition step_items (st : kitty) (o : op) : list item :=
@@ -60,8 +62,8 @@ Definition cache_wf (st : kitty) : Prop :=
   forall id img hash, lookup id (k_imgs st) = Some (img, hash) ->
     image_id hash = id /\ image_wf img /\ nonempty img.
 
-Lemma term_step_items st s o : cache_wf st -> op_wf o ->
-  term_step st s o = store_run (pre_store o s) (step_items st o).
+Lemma term_step_items lost st s o : cache_wf st -> op_wf o ->
+  term_step lost st s o = store_run (pre_store lost o s) (step_items st o).
 Proof.
   intros Hc Hw. unfold term_step, step.
   destruct o as [img hash pos|img hash pos|ev]; cbn [op_wf step_items] in *.
@@ -172,7 +174,9 @@ Proof.
 Qed.
 
 (* ---------- the invariant ---------- *)
-Record Inv (st : kitty) (s : tstore) : Prop := mkInv {
+(* strict = true: additionally every placement on the terminal names an image the handler still
+   counts as transmitted; this part needs every error response to be genuine *)
+Record Inv (strict : bool) (st : kitty) (s : tstore) : Prop := mkInv {
   inv_cache : cache_wf st;
   inv_errs : t_errs s = [];
   inv_pending : t_pending s = None;
@@ -182,7 +186,8 @@ Record Inv (st : kitty) (s : tstore) : Prop := mkInv {
   (* every placement names a transmitted image *)
   inv_places : places_valid s;
   (* ... which the handler still counts as transmitted *)
-  inv_places_cached : forall p, In p (t_places s) -> lookup (place_id p) (k_imgs st) <> None }.
+  inv_places_cached : strict = true ->
+                      forall p, In p (t_places s) -> lookup (place_id p) (k_imgs st) <> None }.
 
 Definition keys (st : kitty) : list N := map fst (k_imgs st).
 
@@ -197,13 +202,13 @@ Definition sent_fact (o : op) (st st' : kitty) (s' : tstore) : Prop :=
   | _ => False
   end.
 
-Lemma inv_init quiet : Inv (kitty_new quiet) store0.
+Lemma inv_init strict quiet : Inv strict (kitty_new quiet) store0.
 Proof.
   constructor; try reflexivity.
   - intros id img hash H. discriminate.
   - intros id img hash H. discriminate.
   - intros p H. contradiction.
-  - intros p H. contradiction.
+  - intros _ p H. contradiction.
 Qed.
 
 Lemma places_valid_sub s imgs places :
@@ -215,7 +220,7 @@ Proof.
 Qed.
 
 (* the invariant only looks at the cache of the handler state *)
-Lemma inv_same_cache st st' s : k_imgs st' = k_imgs st -> Inv st s -> Inv st' s.
+Lemma inv_same_cache strict st st' s : k_imgs st' = k_imgs st -> Inv strict st s -> Inv strict st' s.
 Proof.
   intros E [Hc He Hp Hi Hv Hpc]. constructor; try assumption.
   - unfold cache_wf. rewrite E. exact Hc.
@@ -223,17 +228,17 @@ Proof.
   - rewrite E. exact Hpc.
 Qed.
 
-Lemma inv_clear st s : Inv st s -> Inv st (clear_log s).
+Lemma inv_clear strict st s : Inv strict st s -> Inv strict st (clear_log s).
 Proof. intros [Hc He Hp Hi Hv Hpc]. constructor; assumption. Qed.
 
-Lemma inv_set_cursor st s c sv : Inv st s -> Inv st (set_cursor c sv s).
+Lemma inv_set_cursor strict st s c sv : Inv strict st s -> Inv strict st (set_cursor c sv s).
 Proof. intros [Hc He Hp Hi Hv Hpc]. constructor; assumption. Qed.
 
 (* the terminal forgets image id; the handler's cache has no entry for it (any more) *)
-Lemma inv_forget st st' s id :
+Lemma inv_forget strict st st' s id :
   lookup id (k_imgs st') = None ->
   (forall id', id' <> id -> lookup id' (k_imgs st') = lookup id' (k_imgs st)) ->
-  Inv st s -> Inv st' (store_forget id s).
+  Inv strict st s -> Inv strict st' (store_forget id s).
 Proof.
   intros Hnone Hsame [Hc He Hp Hi Hv Hpc].
   assert (Hsub : forall id' x, lookup id' (k_imgs st') = Some x -> id' <> id /\ lookup id' (k_imgs st) = Some x).
@@ -245,8 +250,8 @@ Proof.
     rewrite img_lookup_filter_other by exact Hne. exact (Hi _ _ _ Hl').
   - intros p Hin. cbn [store_forget t_places t_images] in *. apply filter_In in Hin as [Hin Hf].
     rewrite img_lookup_filter_other by lia. apply Hv, Hin.
-  - intros p Hin. cbn [store_forget t_places] in Hin. apply filter_In in Hin as [Hin Hf].
-    rewrite Hsame by lia. apply Hpc, Hin.
+  - intros Hs p Hin. cbn [store_forget t_places] in Hin. apply filter_In in Hin as [Hin Hf].
+    rewrite Hsame by lia. apply (Hpc Hs), Hin.
 Qed.
 
 Lemma nmem_filter_self id l : nmem id (filter (fun x => negb (x =? id)) l) = false.
@@ -256,11 +261,11 @@ Proof.
 Qed.
 
 (* drawing an image that is not cached, on any store related to the handler by the invariant *)
-Lemma inv_draw_fresh st s sup img hash pid q : Inv st s -> image_wf img -> nonempty img ->
+Lemma inv_draw_fresh strict st s sup img hash pid q : Inv strict st s -> image_wf img -> nonempty img ->
   lookup (image_id hash) (k_imgs st) = None -> 1 <= pid <= ID_MAX ->
   let id := image_id hash in
   let s' := store_run s (tx_items id q img ++ [put_item id pid q]) in
-  Inv (mkKitty ((id, (img, hash)) :: k_imgs st) sup) s' /\
+  Inv strict (mkKitty ((id, (img, hash)) :: k_imgs st) sup) s' /\
   t_sent s' = (id, content_of img) :: t_sent s /\
   In (id, pid, t_cursor s) (t_places s') /\ t_cursor s' = t_cursor s /\ t_saved s' = t_saved s.
 Proof.
@@ -280,18 +285,19 @@ Proof.
     + apply filter_In in Hin as [Hin _]. apply filter_In in Hin as [Hin Hf].
       cbn [img_lookup]. replace (id =? place_id p) with false by lia.
       rewrite img_lookup_filter_other by lia. apply Hv, Hin.
-  - intros p Hin. cbn [t_places k_imgs lookup] in *. destruct Hin as [<-|Hin].
+  - intros Hs p Hin. cbn [t_places k_imgs lookup] in *. destruct Hin as [<-|Hin].
     + cbn [place_id fst]. rewrite N.eqb_refl. discriminate.
     + apply filter_In in Hin as [Hin _]. apply filter_In in Hin as [Hin Hf].
-      replace (id =? place_id p) with false by lia. apply Hpc, Hin.
+      replace (id =? place_id p) with false by lia. apply (Hpc Hs), Hin.
 Qed.
 
 Lemma snd_step_draw st img hash pos : snd (step st (OpDraw img hash pos)) = snd (draw st img hash pos).
 Proof. cbn [step]. destruct (draw st img hash pos). reflexivity. Qed.
 
-Lemma step_draw_ok st s img hash pos : Inv st s -> image_wf img ->
+Lemma step_draw_ok strict lost st s img hash pos : Inv strict st s -> image_wf img ->
   let o := OpDraw img hash pos in
-  Inv (snd (step st o)) (term_step st s o) /\ sent_fact o st (snd (step st o)) (term_step st s o).
+  Inv strict (snd (step st o)) (term_step lost st s o) /\
+  sent_fact o st (snd (step st o)) (term_step lost st s o).
 Proof.
   intros HI Hwf o. pose proof HI as [Hc He Hp Hi Hv Hpc].
   unfold o. rewrite term_step_items by assumption. rewrite snd_step_draw.
@@ -304,18 +310,18 @@ Proof.
       rewrite (run_put (clear_log s) _ _ _ (content_of img0));
         [|exact Hp|apply image_id_range|apply placement_id_range|exact (Hi _ _ _ Hl)].
       cbn [t_sent clear_log]. split; [|reflexivity].
-      apply (inv_same_cache st); [reflexivity|].
+      apply (inv_same_cache strict st); [reflexivity|].
       constructor; cbn [t_errs t_pending t_images clear_log]; try assumption.
       -- intros p Hin. cbn [t_places t_images clear_log] in *. destruct Hin as [<-|Hin].
          ++ cbn [place_id fst]. rewrite (Hi _ _ _ Hl). discriminate.
          ++ apply filter_In in Hin as [Hin _]. apply Hv, Hin.
-      -- intros p Hin. cbn [t_places clear_log] in *. destruct Hin as [<-|Hin].
+      -- intros Hs p Hin. cbn [t_places clear_log] in *. destruct Hin as [<-|Hin].
          ++ cbn [place_id fst]. rewrite Hl. discriminate.
-         ++ apply filter_In in Hin as [Hin _]. apply Hpc, Hin.
+         ++ apply filter_In in Hin as [Hin _]. apply (Hpc Hs), Hin.
     + (* not cached: transmit, then place *)
       rewrite (draw_fresh st img hash pos (conj Hh Hw) Hl). cbn [snd].
-      destruct (inv_draw_fresh st (clear_log s) (k_suppress st) img hash (placement_id pos) (qval st)
-                  (inv_clear st s HI) Hwf (conj Hh Hw) Hl (placement_id_range pos)) as (HI' & Hs & _).
+      destruct (inv_draw_fresh strict st (clear_log s) (k_suppress st) img hash (placement_id pos) (qval st)
+                  (inv_clear strict st s HI) Hwf (conj Hh Hw) Hl (placement_id_range pos)) as (HI' & Hs & _).
       split; [exact HI'|]. rewrite Hs. cbn [t_sent clear_log keys k_imgs map fst].
       split; [apply lookup_none_keys, Hl|reflexivity].
   - (* no pixels: nothing is written *)
@@ -324,9 +330,10 @@ Proof.
     cbn [store_run fold_left t_sent clear_log]. split; [apply inv_clear, HI|reflexivity].
 Qed.
 
-Lemma step_erase_ok st s img hash pos : Inv st s -> image_wf img ->
+Lemma step_erase_ok strict lost st s img hash pos : Inv strict st s -> image_wf img ->
   let o := OpErase img hash pos in
-  Inv (snd (step st o)) (term_step st s o) /\ sent_fact o st (snd (step st o)) (term_step st s o).
+  Inv strict (snd (step st o)) (term_step lost st s o) /\
+  sent_fact o st (snd (step st o)) (term_step lost st s o).
 Proof.
   intros HI Hwf o. pose proof HI as [Hc He Hp Hi Hv Hpc].
   unfold o. rewrite term_step_items by assumption. cbn [step snd pre_store step_items].
@@ -334,7 +341,7 @@ Proof.
   unfold sent_fact, live_after. cbn [err_of t_sent clear_log]. split; [|reflexivity].
   constructor; cbn [t_errs t_pending t_images clear_log]; try assumption.
   - intros p Hin. cbn [t_places t_images clear_log] in *. apply filter_In in Hin as [Hin _]. apply Hv, Hin.
-  - intros p Hin. cbn [t_places clear_log] in *. apply filter_In in Hin as [Hin _]. apply Hpc, Hin.
+  - intros Hs p Hin. cbn [t_places clear_log] in *. apply filter_In in Hin as [Hin _]. apply (Hpc Hs), Hin.
 Qed.
 
 Lemma remove_key_sub {A} id (l : list (N * A)) id' x :
@@ -345,11 +352,41 @@ Proof.
   - split; [exact Hne|]. rewrite lookup_remove_other in H by exact Hne. exact H.
 Qed.
 
-Lemma step_event_ok st s ev : Inv st s ->
-  let o := OpEvent ev in
-  Inv (snd (step st o)) (term_step st s o) /\ sent_fact o st (snd (step st o)) (term_step st s o).
+(* the terminal side before an error response: image forgotten (genuine) or everything kept (spurious) *)
+Definition pre_err (lost : bool) (id : N) (s : tstore) : tstore :=
+  if lost then store_forget id (clear_log s) else clear_log s.
+
+Lemma inv_pre_err strict lost st st' s id : (strict = true -> lost = true) ->
+  lookup id (k_imgs st') = None ->
+  (forall id', id' <> id -> lookup id' (k_imgs st') = lookup id' (k_imgs st)) ->
+  Inv strict st s -> Inv strict st' (pre_err lost id s).
 Proof.
-  intros HI o. pose proof HI as [Hc He Hp Hi Hv Hpc].
+  intros Hsl Hnone Hsame HI. unfold pre_err. destruct lost.
+  - apply (inv_forget strict st st' (clear_log s) id Hnone Hsame), inv_clear, HI.
+  - destruct strict; [specialize (Hsl eq_refl); discriminate|].
+    destruct HI as [Hc He Hp Hi Hv Hpc].
+    assert (Hsub : forall id' x, lookup id' (k_imgs st') = Some x -> lookup id' (k_imgs st) = Some x).
+    { intros id' x Hx. destruct (N.eq_dec id' id) as [->|Hne]; [rewrite Hnone in Hx; discriminate|].
+      rewrite <- Hsame by exact Hne. exact Hx. }
+    constructor; cbn [clear_log t_errs t_pending t_images t_places]; try assumption.
+    + intros id' img hash Hl. exact (Hc _ _ _ (Hsub _ _ Hl)).
+    + intros id' img hash Hl. exact (Hi _ _ _ (Hsub _ _ Hl)).
+    + intros Hs. discriminate.
+Qed.
+
+Lemma pre_err_facts lost id s : t_sent (pre_err lost id s) = [] /\ t_pending (pre_err lost id s) = t_pending s /\
+  t_errs (pre_err lost id s) = t_errs s.
+Proof. unfold pre_err. destruct lost; repeat split. Qed.
+
+Lemma pre_store_err lost id pl s : pre_store lost (OpEvent (EvKitty id pl true)) s = pre_err lost id s.
+Proof. reflexivity. Qed.
+
+Lemma step_event_ok strict lost st s ev : (strict = true -> lost = true) -> Inv strict st s ->
+  let o := OpEvent ev in
+  Inv strict (snd (step st o)) (term_step lost st s o) /\
+  sent_fact o st (snd (step st o)) (term_step lost st s o).
+Proof.
+  intros Hsl HI o. pose proof HI as [Hc He Hp Hi Hv Hpc].
   unfold o. rewrite term_step_items by (try assumption; exact I).
   unfold sent_fact, live_after. cbn [step step_items].
   destruct ev as [id pl err|].
@@ -359,18 +396,19 @@ Proof.
   2:{ cbn [handle snd fst pre_store err_of].
       assert (E : handle_items st (EvKitty id pl false) = []) by (destruct pl; reflexivity).
       rewrite E. cbn [store_run fold_left t_sent clear_log]. split; [apply inv_clear, HI|reflexivity]. }
-  cbn [pre_store err_of]. unfold handle, handle_items.
+  rewrite pre_store_err. cbn [err_of]. unfold handle, handle_items.
+  destruct (pre_err_facts lost id s) as (Hs0 & Hp0' & He0).
   destruct (lookup id (k_imgs st)) as [[img hash]|] eqn:Hl.
   2:{ (* the handler does not know the image: nothing written, nothing changes *)
       assert (E : match pl with Some _ => @nil item | None => [] end = []) by (destruct pl; reflexivity).
-      rewrite E. cbn [snd fst store_run fold_left t_sent store_forget clear_log]. split.
-      - apply (inv_forget st st (clear_log s) id); [exact Hl|reflexivity|apply inv_clear, HI].
+      rewrite E. cbn [snd fst store_run fold_left]. rewrite Hs0. split.
+      - apply (inv_pre_err strict lost st st s id Hsl Hl); [reflexivity|exact HI].
       - symmetry. apply filter_keys_absent, Hl. }
   destruct (Hc _ _ _ Hl) as (Hid & Hwf & Hne).
   destruct pl as [p|].
   2:{ (* no placement: the image is dropped from the cache *)
-      cbn [snd fst store_run fold_left t_sent store_forget clear_log]. split.
-      - apply (inv_forget st _ (clear_log s) id); [apply lookup_remove_same| |apply inv_clear, HI].
+      cbn [snd fst store_run fold_left]. rewrite Hs0. split.
+      - apply (inv_pre_err strict lost st _ s id Hsl); [apply lookup_remove_same| |exact HI].
         cbn [k_imgs]. intros id' Hne'. apply lookup_remove_other, Hne'.
       - unfold keys. cbn [k_imgs]. apply keys_remove. }
   (* placement given: cursor save, move, re-transmission and placement, cursor restore *)
@@ -381,12 +419,12 @@ Proof.
   unfold draw_items. destruct Hne as [Hh Hw].
   replace ((im_height img =? 0) || (im_width img =? 0)) with false by lia.
   unfold cached. rewrite Hl1.
-  set (s0 := store_forget id (clear_log s)).
-  assert (HI0 : Inv st1 s0).
-  { apply (inv_forget st st1 (clear_log s) id); [apply lookup_remove_same| |apply inv_clear, HI].
+  set (s0 := pre_err lost id s) in *.
+  assert (HI0 : Inv strict st1 s0).
+  { apply (inv_pre_err strict lost st st1 s id Hsl); [apply lookup_remove_same| |exact HI].
     intros id' Hne'. apply lookup_remove_other, Hne'. }
   rewrite !store_run_cons.
-  assert (Hp0 : t_pending s0 = None) by exact Hp.
+  assert (Hp0 : t_pending s0 = None) by (rewrite Hp0'; exact Hp).
   set (s1 := item_step s0 ISave).
   assert (E1 : s1 = set_cursor (t_cursor s0) (Some (t_cursor s0)) s0)
     by (unfold s1; cbn [item_step]; rewrite Hp0; reflexivity).
@@ -394,27 +432,28 @@ Proof.
   assert (E2 : s2 = set_cursor (Some (N.pred (N.max (fst pos + 1) 1), N.pred (N.max (snd pos + 1) 1)))
                                (t_saved s1) s1)
     by (unfold s2; cbn [item_step]; rewrite E1; cbn [set_cursor t_pending]; rewrite Hp0; reflexivity).
-  assert (HI2 : Inv st1 s2) by (rewrite E2, E1; apply inv_set_cursor, inv_set_cursor, HI0).
+  assert (HI2 : Inv strict st1 s2) by (rewrite E2, E1; apply inv_set_cursor, inv_set_cursor, HI0).
   rewrite store_run_app.
-  destruct (inv_draw_fresh st1 s2 (k_suppress st) img hash (placement_id pos) (qval st1) HI2 Hwf (conj Hh Hw) Hl1
+  destruct (inv_draw_fresh strict st1 s2 (k_suppress st) img hash (placement_id pos) (qval st1) HI2 Hwf (conj Hh Hw) Hl1
               (placement_id_range pos)) as (HI3 & Hs3 & _ & _ & _).
   set (s3 := store_run s2 (tx_items (image_id hash) (qval st1) img ++
                            [put_item (image_id hash) (placement_id pos) (qval st1)])) in *.
   cbn [store_run fold_left].
   assert (E4 : item_step s3 IRestore =
                set_cursor (match t_saved s3 with Some c => c | None => None end) (t_saved s3) s3).
-  { cbn [item_step]. rewrite (inv_pending _ _ HI3). reflexivity. }
+  { cbn [item_step]. rewrite (inv_pending _ _ _ HI3). reflexivity. }
   rewrite E4. rewrite Hid in *. split.
   - apply inv_set_cursor. exact HI3.
-  - cbn [set_cursor t_sent]. rewrite Hs3, E2, E1. cbn [set_cursor t_sent]. unfold s0. cbn [store_forget clear_log t_sent].
+  - cbn [set_cursor t_sent]. rewrite Hs3, E2, E1. cbn [set_cursor t_sent]. rewrite Hs0.
     split; [apply nmem_filter_self|]. unfold keys. cbn [k_imgs map fst]. unfold st1. cbn [k_imgs]. rewrite keys_remove. reflexivity.
 Qed.
 
 (* ---------- all histories ---------- *)
-Lemma step_ok st s o : Inv st s -> op_wf o ->
-  Inv (snd (step st o)) (term_step st s o) /\ sent_fact o st (snd (step st o)) (term_step st s o).
+Lemma step_ok strict lost st s o : (strict = true -> lost = true) -> Inv strict st s -> op_wf o ->
+  Inv strict (snd (step st o)) (term_step lost st s o) /\
+  sent_fact o st (snd (step st o)) (term_step lost st s o).
 Proof.
-  intros HI Hw. destruct o as [img hash pos|img hash pos|ev].
+  intros Hsl HI Hw. destruct o as [img hash pos|img hash pos|ev].
   - apply step_draw_ok; assumption.
   - apply step_erase_ok; assumption.
   - apply step_event_ok; assumption.
@@ -422,17 +461,19 @@ Qed.
 
 Definition sent_ids (s : tstore) : list N := map fst (t_sent s).
 
-Theorem history_ok : forall ops st s, Inv st s -> Forall op_wf ops ->
+(* any mix of genuine and spurious error responses (strict = false), or genuine ones only (strict = true) *)
+Theorem history_ok strict : forall (ops : list (op * bool)) st s, Inv strict st s ->
+  Forall (fun ol => op_wf (fst ol) /\ (strict = true -> snd ol = true)) ops ->
   Forall (fun s' => t_errs s' = [] /\ t_pending s' = None /\ places_valid s') (lockstep st s ops) /\
-  once_scan (keys st) (combine (map err_of ops) (map sent_ids (lockstep st s ops))) = true.
+  once_scan (keys st) (combine (map (fun ol => err_of (fst ol)) ops) (map sent_ids (lockstep st s ops))) = true.
 Proof.
-  induction ops as [|o r IH]; intros st s HI Hw; [split; [constructor|reflexivity]|].
-  inversion Hw as [|? ? Ho Hr]; subst. cbn [lockstep map combine].
-  destruct (step_ok st s o HI Ho) as [HI' Hs].
+  induction ops as [|[o lost] r IH]; intros st s HI Hw; [split; [constructor|reflexivity]|].
+  inversion Hw as [|? ? [Ho Hsl] Hr]; subst. cbn [fst snd] in *. cbn [lockstep map combine fst].
+  destruct (step_ok strict lost st s o Hsl HI Ho) as [HI' Hs].
   destruct (IH _ _ HI' Hr) as [IH1 IH2]. split.
   - constructor; [|exact IH1]. destruct HI'. auto.
   - cbn [once_scan]. unfold sent_fact, live_after, sent_ids in *.
-    destruct (t_sent (term_step st s o)) as [|[i im] [|x l]]; cbn [map fst]; try contradiction.
+    destruct (t_sent (term_step lost st s o)) as [|[i im] [|x l]]; cbn [map fst]; try contradiction.
     + rewrite Hs in IH2. exact IH2.
     + destruct Hs as [Hn Hk]. rewrite Hk in IH2. rewrite Hn, IH2. reflexivity.
 Qed.
@@ -462,10 +503,21 @@ Proof.
   rewrite IH; [reflexivity|]. intros y Hy. apply H. right. exact Hy.
 Qed.
 
-Theorem draw_places st s img hash pos : Inv st s -> image_wf img -> nonempty img ->
-  places_of (term_step st s (OpDraw img hash pos)) =
+Lemma map_fst_filter_id id (l : list place) :
+  map fst (filter (fun p => negb (place_id p =? id)) l) = filter (fun x => negb (fst x =? id)) (map fst l).
+Proof.
+  induction l as [|[[i q] c] l IH]; [reflexivity|]. cbn [filter map fst].
+  unfold place_id in *. cbn [fst] in *. destruct (i =? id); cbn [negb map fst]; rewrite IH; reflexivity.
+Qed.
+
+(* whatever the terminal still holds (genuine or spurious errors before): a draw creates the placement
+   (id, pid); if it had to transmit, the terminal dropped the old placements of the id with the old data *)
+Theorem draw_places_gen strict lost st s img hash pos : Inv strict st s -> image_wf img -> nonempty img ->
+  places_of (term_step lost st s (OpDraw img hash pos)) =
   (image_id hash, placement_id pos)
-    :: filter (fun x => negb (pl_eqb x (image_id hash, placement_id pos))) (places_of s).
+    :: filter (fun x => negb (pl_eqb x (image_id hash, placement_id pos)))
+         (if cached st hash then places_of s
+          else filter (fun x => negb (fst x =? image_id hash)) (places_of s)).
 Proof.
   intros HI Hwf Hne. pose proof HI as [Hc He Hp Hi Hv Hpc].
   rewrite term_step_items by assumption. cbn [pre_store step_items]. unfold draw_items.
@@ -475,14 +527,26 @@ Proof.
       [|exact Hp|apply image_id_range|apply placement_id_range|exact (Hi _ _ _ Hl)].
     cbn [t_places clear_log map fst]. rewrite places_filter. reflexivity.
   - rewrite (run_draw_fresh (clear_log s) _ _ _ img Hp Hwf (conj Hh Hw) (image_id_range hash) (placement_id_range pos)).
-    cbn [t_places clear_log map fst]. rewrite places_filter. f_equal. f_equal. f_equal.
-    apply filter_all. intros p Hin. specialize (Hpc p Hin).
-    destruct (place_id p =? image_id hash) eqn:E; [|reflexivity].
-    apply N.eqb_eq in E. rewrite E in Hpc. contradiction.
+    cbn [t_places clear_log map fst]. rewrite places_filter, map_fst_filter_id. reflexivity.
 Qed.
 
-Theorem erase_places st s img hash pos : Inv st s -> image_wf img ->
-  places_of (term_step st s (OpErase img hash pos)) =
+(* when every error response was genuine, no placement of an uncached id is left: a draw touches nothing else *)
+Theorem draw_places lost st s img hash pos : Inv true st s -> image_wf img -> nonempty img ->
+  places_of (term_step lost st s (OpDraw img hash pos)) =
+  (image_id hash, placement_id pos)
+    :: filter (fun x => negb (pl_eqb x (image_id hash, placement_id pos))) (places_of s).
+Proof.
+  intros HI Hwf Hne. rewrite (draw_places_gen true lost st s img hash pos HI Hwf Hne).
+  unfold cached. destruct (lookup (image_id hash) (k_imgs st)) eqn:Hl; [reflexivity|].
+  f_equal. f_equal. apply filter_all. intros x Hin. unfold places_of in Hin.
+  apply in_map_iff in Hin as (p & <- & Hin).
+  pose proof (inv_places_cached _ _ _ HI eq_refl p Hin) as Hpc.
+  destruct (fst (fst p) =? image_id hash) eqn:E; [|reflexivity].
+  apply N.eqb_eq in E. unfold place_id in Hpc. rewrite E in Hpc. contradiction.
+Qed.
+
+Theorem erase_places strict lost st s img hash pos : Inv strict st s -> image_wf img ->
+  places_of (term_step lost st s (OpErase img hash pos)) =
   match pos with
   | Some p => filter (fun x => negb (pl_eqb x (image_id hash, placement_id p))) (places_of s)
   | None => filter (fun x => negb (fst x =? image_id hash)) (places_of s)
@@ -498,8 +562,8 @@ Qed.
 
 (* erase(img, pos) removes the placement draw(img, pos) created, and no placement of the image at
    any other position (coordinates below 65536, the pair (65534,65535) / (65535,65535) excepted) *)
-Theorem erase_exact st s img hash pos : Inv st s -> image_wf img -> in_dom pos ->
-  let s' := term_step st s (OpErase img hash (Some pos)) in
+Theorem erase_exact strict lost st s img hash pos : Inv strict st s -> image_wf img -> in_dom pos ->
+  let s' := term_step lost st s (OpErase img hash (Some pos)) in
   ~ In (image_id hash, placement_id pos) (places_of s') /\
   (forall x, In x (places_of s) -> x <> (image_id hash, placement_id pos) -> In x (places_of s')) /\
   (forall pos', in_dom pos' -> pos' <> pos ->
@@ -507,7 +571,7 @@ Theorem erase_exact st s img hash pos : Inv st s -> image_wf img -> in_dom pos -
      In (image_id hash, placement_id pos') (places_of s) ->
      In (image_id hash, placement_id pos') (places_of s')).
 Proof.
-  intros HI Hwf Hd s'. unfold s'. rewrite (erase_places st s img hash (Some pos) HI Hwf).
+  intros HI Hwf Hd s'. unfold s'. rewrite (erase_places strict lost st s img hash (Some pos) HI Hwf).
   assert (Hkeep : forall x, In x (places_of s) -> x <> (image_id hash, placement_id pos) ->
             In x (filter (fun x => negb (pl_eqb x (image_id hash, placement_id pos))) (places_of s))).
   { intros x Hin Hne. apply filter_In. split; [exact Hin|].
@@ -520,4 +584,19 @@ Proof.
   - exact Hkeep.
   - intros pos' Hd' Hne Hc1 Hc2 Hin. apply Hkeep; [exact Hin|].
     intros E. inversion E as [E']. destruct (placement_inj pos' pos Hd' Hd E') as [X|[[X Y]|[X Y]]]; subst; tauto.
+Qed.
+
+(* the bytes of every call parse, and to exactly the commands step_items *)
+Lemma step_bytes_parse st o : cache_wf st -> op_wf o ->
+  parse_stream (fst (fst (step st o))) = Some (step_items st o).
+Proof.
+  intros Hc Hw. unfold step.
+  destruct o as [img hash pos|img hash pos|ev]; cbn [op_wf step_items] in *.
+  - destruct (draw st img hash pos) as [b st'] eqn:E. cbn [fst].
+    pose proof (parse_draw st img hash pos Hw) as P. rewrite E in P. exact P.
+  - cbn [fst]. apply parse_erase.
+  - destruct (handle st ev) as [[b st'] r] eqn:E. cbn [fst].
+    assert (Hwf : forall id img hash, lookup id (k_imgs st) = Some (img, hash) -> image_wf img)
+      by (intros id img hash Hl; apply (Hc id img hash Hl)).
+    pose proof (parse_handle st ev Hwf) as P. rewrite E in P. exact P.
 Qed.
